@@ -83,22 +83,22 @@ func (s *outStream) Write(p []byte) (int, error) {
 	defer s.mu.Unlock()
 	return s.buf.Write(p)
 }
-func (s *outStream) Close() error                  { return nil }
-func (s *outStream) FullClose() error              { return nil }
-func (s *outStream) Reset() error                  { return nil }
-func (s *outStream) Headers() p2p.Headers          { return nil }
-func (s *outStream) ResponseHeaders() p2p.Headers  { return nil }
+func (s *outStream) Close() error                 { return nil }
+func (s *outStream) FullClose() error             { return nil }
+func (s *outStream) Reset() error                 { return nil }
+func (s *outStream) Headers() p2p.Headers         { return nil }
+func (s *outStream) ResponseHeaders() p2p.Headers { return nil }
 
 // delivery stream: the handler reads the captured bytes from it
 type inStream struct{ r *bytes.Reader }
 
-func (s *inStream) Read(p []byte) (int, error)    { return s.r.Read(p) }
-func (s *inStream) Write(p []byte) (int, error)   { return len(p), nil }
-func (s *inStream) Close() error                  { return nil }
-func (s *inStream) FullClose() error              { return nil }
-func (s *inStream) Reset() error                  { return nil }
-func (s *inStream) Headers() p2p.Headers          { return nil }
-func (s *inStream) ResponseHeaders() p2p.Headers  { return nil }
+func (s *inStream) Read(p []byte) (int, error)   { return s.r.Read(p) }
+func (s *inStream) Write(p []byte) (int, error)  { return len(p), nil }
+func (s *inStream) Close() error                 { return nil }
+func (s *inStream) FullClose() error             { return nil }
+func (s *inStream) Reset() error                 { return nil }
+func (s *inStream) Headers() p2p.Headers         { return nil }
+func (s *inStream) ResponseHeaders() p2p.Headers { return nil }
 
 type streamer struct {
 	net  *Net
